@@ -29,9 +29,10 @@ RULE = (
 )
 ASSUMPTIONS = ["expected message = Python str.format of the template with the six documented placeholders; OLD/NEW shorthand by word boundary"]
 
-SIGMA = ["a", " ", "'", '"', "\\", "$", "`", "-", ";", "\n", "é", "{new_version}", "%"]
+# "e\u0301" (decomposed) and U+2126 OHM SIGN (singleton decomposition) change under Unicode normalisation; "é" does not
+SIGMA = ["a", " ", "'", '"', "\\", "$", "`", "-", ";", "\n", "é", "{new_version}", "%", "e\u0301", "\u2126"]
 CLI_EXTRA = ["OLD", "NEW"]
-PATH_SIGMA = ["a", " ", "'", '"', "$", "`", "-", ";", "é", "\\"]
+PATH_SIGMA = ["a", " ", "'", '"', "$", "`", "-", ";", "é", "\\", "e\u0301", "\u2126"]
 PATTERN_CHARS = ["'", "$", "`", ";", "é", "*", "?", "(", "&", "#", "~", "!"]
 BENIGN = "Zq9"
 OLD, NEW = "1.2.3", "1.2.4"
@@ -40,7 +41,7 @@ SLOTS = ("commit-config", "commit-cli", "tag-config", "tag-cli", "path", "patter
 
 
 def hexs(syms):
-    return "+".join("0x" + s.encode("utf-8").hex() if len(s) == 1 else s for s in syms)
+    return "+".join("0x" + s.encode("utf-8").hex() if (len(s) == 1 or not s.isascii()) else s for s in syms)
 
 
 def expected_text(slot, value):
